@@ -374,11 +374,11 @@ func observeStep(e *asm.Emitter, om *asmModel, op asmOp) (panicked interface{}) 
 	if panicked = applyReal(e, op); panicked != nil {
 		return
 	}
-	om.record(op.kind, op.text, op.refLabel, op.refS8, lenBefore, e)
+	om.record(op.kind, op.text, op.refLabel != "", op.refLabel, op.refS8, lenBefore, e)
 	return nil
 }
 
-func (om *asmModel) record(kind asmItemKind, text, refLabel string, refS8 bool, lenBefore int, e *asm.Emitter) {
+func (om *asmModel) record(kind asmItemKind, text string, isRef bool, refLabel string, refS8 bool, lenBefore int, e *asm.Emitter) {
 	addr := om.base + uint32(lenBefore)
 	switch kind {
 	case itLabel:
@@ -398,7 +398,7 @@ func (om *asmModel) record(kind asmItemKind, text, refLabel string, refS8 bool, 
 		if refS8 {
 			want = 2
 		}
-		if refLabel != "" && len(b) == want { // a reference of another shape is an encoding matter (C03), not judged here
+		if isRef && len(b) == want { // a reference of another shape is an encoding matter (C03), not judged here
 			om.refs = append(om.refs, asmRef{refS8, refLabel, addr + 1})
 			ref = len(om.refs) - 1
 		}
